@@ -149,6 +149,17 @@ CHECKS = {
         "Trusted: harness/drivers.py (spec -> classes builder, attribute-resolution model), harness/refnum.py for number values.",
         "DESIGN.md section 4, C07",
     ),
+    "C08": (
+        "exploration",
+        "exhaustive payload-length sweeps in both directions x fragmentations + Hypothesis policy matrix (single-connection clients, raw peers) + MB payloads (thorough), bit-exactness / no-leak / no-stall oracle through the full stack",
+        "Generated-input search through the whole stack: every payload length of the stated ranges is published by a driver and received "
+        "by the library Client over its BLOB connection, and uploaded by the Client to the driver, under three fragmentations; Hypothesis "
+        "adds formats, BLOB kinds and observers with every policy; a sentinel update after each BLOB proves nothing stalls. Losses are "
+        "classified by the necessary condition of known finding D26 (element longer than an enabled threshold on the receiving link); "
+        "anything else is a violation.",
+        "Trusted: harness/stack.py, harness/net.py; D26a/D26b listed in known_findings.json.",
+        "DESIGN.md section 4, C08",
+    ),
     "C09": (
         "exploration",
         "exhaustive state-graph enumeration (rule x n x state x operation) + Hypothesis histories, rule invariants on states and on every published update",
